@@ -3228,6 +3228,15 @@ func (ts *TokenStore) revokeCommon(ctx context.Context, req *logical.Request, da
 		return nil, err
 	}
 	if te == nil {
+		// A token whose earlier revocation was interrupted is still marked
+		// as pending revocation and hidden from Lookup; finish revoking it
+		// rather than reporting success without doing anything.
+		te, err = ts.lookupTainted(ctx, id)
+		if err != nil {
+			return nil, err
+		}
+	}
+	if te == nil {
 		return nil, nil
 	}
 
